@@ -147,6 +147,8 @@ def run_impl(binary, scn, strace=None, inject=None, timeout=20, with_mtime=False
             for dp, _, fns in os.walk(work):
                 for fn in fns:
                     fp = os.path.join(dp, fn)
+                    if not stat.S_ISREG(os.lstat(fp).st_mode):
+                        continue
                     try:
                         b = open(fp, "rb").read()
                         if b"@CWD@" in b:
@@ -169,8 +171,14 @@ def run_impl(binary, scn, strace=None, inject=None, timeout=20, with_mtime=False
                 cmd = ["setpriv", "--reuid=%d" % NOBODY, "--regid=%d" % NOBODY, "--clear-groups"]
             cmd += [binary] + argv
         um = scn.get("umask", 0o022)
+        limit_as = "asan" not in binary
         def pre():
+            import resource
             os.setsid(); os.umask(um)
+            # a run that eats memory or fills the disk (an endless read of a device, an endless write) must not take the checker with it
+            if limit_as:
+                resource.setrlimit(resource.RLIMIT_AS, (3 << 30, 3 << 30))
+            resource.setrlimit(resource.RLIMIT_FSIZE, (256 << 20, 256 << 20))
         sin = scn.get("stdin")
         timed_out = False
         try:
